@@ -108,6 +108,18 @@ def boot_case(draw, tier):
         j = draw(st.integers(0, n - 1))
         table = [[j] * n, [j] * (n - 1) + [draw(st.integers(0, n - 1))], [draw(st.integers(0, n - 1)) for _ in range(n)]][:draw(st.integers(1, 3))]
         return {'chain': c, 'table': table, 'kind': 'any'}
+    if draw(st.integers(0, 14)) == 0:
+        # more bootstrap samples than any block size an implementation might use internally
+        n = len(c['idl'])
+        ns = draw(st.integers(2049, 2300))
+        seed_ = draw(st.integers(0, 10 ** 6))
+        return {'chain': c, 'table_rule': ['uniform', seed_, ns], 'table': None, 'kind': 'any', 'layout': draw(st.sampled_from(['C', 'F', 'list']))}
+    if draw(st.integers(0, 11)) == 0:
+        # full column rank but far from orthogonal: row 0 draws every configuration once, row i draws configuration i three
+        # times instead of its two neighbours (a discrete Laplacian; condition number grows like N^2)
+        n = draw(st.integers(40, 90))
+        c = {'name': c['name'], 'idl': list(range(2, 2 + n)), 'form': 'range', 'data': draw(gen.recipe(n, kinds=('white', 'ar1'), sigma=gen.fl(0.1, 2.0)))}
+        return {'chain': c, 'table_rule': ['laplace'], 'table': None, 'kind': 'fullrank', 'layout': draw(st.sampled_from(['C', 'F']))}
     n = len(c['idl'])
     kind = draw(st.sampled_from(['any', 'any', 'fullrank', 'few']))
     if kind == 'few':
@@ -152,7 +164,17 @@ def boot_oracle(spec):
     n = len(x)
     scale = (float(np.max(np.abs(x))) or 1.0) + 1e-290      # samples in the denormal range carry no relative precision
     o = build_obs({'chains': [c], 'cov': []})
-    table = np.array(spec['table'], dtype=int)
+    if spec.get('table') is None:
+        rule = spec['table_rule']
+        if rule[0] == 'uniform':
+            table = np.random.RandomState(rule[1]).randint(0, n, size=(rule[2], n))
+        else:
+            table = np.tile(np.arange(n), (n, 1))
+            for i in range(1, n):
+                table[i, (i - 1) % n] = i
+                table[i, (i + 1) % n] = i
+    else:
+        table = np.array(spec['table'], dtype=int)
     ns = table.shape[0]
     b = o.export_bootstrap(samples=ns, random_numbers=_table_arg(table, spec.get('layout', 'C')))
     require(isinstance(b, np.ndarray) and b.shape == (ns + 1,), 'export_bootstrap must return samples+1 numbers', getattr(b, 'shape', None))
@@ -182,10 +204,11 @@ def boot_oracle(spec):
                 'importing the same bootstrap samples twice gives different observables')
         require(abs(float(back.value) - float(np.mean(x))) <= 1e-12 * scale, 'import_bootstrap did not restore the central value')
         rec = np.asarray(back.deltas[c['name']]) + back.r_values[c['name']]
-        require(rec.shape == x.shape and np.all(np.abs(rec - x) <= 1e-10 * cond * scale), 'import_bootstrap did not restore the Monte-Carlo samples',
+        # (a backward stable least-squares solution is accurate to eps * cond; 1e-12 leaves a factor 1e4 / N for its constants)
+        require(rec.shape == x.shape and np.all(np.abs(rec - x) <= 1e-12 * cond * scale), 'import_bootstrap did not restore the Monte-Carlo samples',
                 float(np.max(np.abs(rec - x))) if rec.shape == x.shape else rec.shape, cond)
         require(list(back.names) == [c['name']], 'name of the re-imported observable', back.names)
-    rep = len(set(map(tuple, spec['table']))) < ns
+    rep = len(set(map(tuple, table.tolist()))) < ns
     return {'nt': rep or rank < n or gen.classify_idl(c['idl']) != 'contig', 'cls': labs}
 
 
